@@ -14,6 +14,8 @@ package main
 
 import (
 	"context"
+	"os"
+	"path/filepath"
 	"encoding/binary"
 	"errors"
 	"fmt"
@@ -29,6 +31,7 @@ import (
 	evmEvents "github.com/ChainSafe/sygma-relayer/chains/evm/calls/events"
 	evmHandlers "github.com/ChainSafe/sygma-relayer/chains/evm/listener/eventHandlers"
 	subHandlers "github.com/ChainSafe/sygma-relayer/chains/substrate/listener"
+	"github.com/ChainSafe/sygma-relayer/keyshare"
 	relayerStore "github.com/ChainSafe/sygma-relayer/store"
 	"github.com/centrifuge/go-substrate-rpc-client/v4/registry/parser"
 	"github.com/ethereum/go-ethereum/common"
@@ -445,10 +448,9 @@ func (c subScanConn) GetBlock(types.Hash) (*types.SignedBlock, error) {
 type realEvmNode struct{ e *scanEnv }
 
 func (n realEvmNode) FetchEventLogs(ctx context.Context, a common.Address, event string, s, end *big.Int) ([]ethTypes.Log, error) {
-	idx := 1
-	if event == string(evmEvents.DepositSig) {
-		idx = 0
-	}
+	// handler index = position in the list app.Run registers
+	idx := map[string]int{string(evmEvents.DepositSig): 0, string(evmEvents.StartKeygenSig): 1, string(evmEvents.StartFrostKeygenSig): 2,
+		string(evmEvents.KeyRefreshSig): 3, string(evmEvents.RetryV1Sig): 4, string(evmEvents.RetryV2Sig): 5}[event]
 	if err := n.e.handle(idx, s, end); err != nil {
 		return nil, err
 	}
@@ -528,10 +530,14 @@ func (noPropStore) PropStatus(s, d uint8, n uint64) (relayerStore.PropStatus, er
 }
 
 // realStackSize: number of handlers app.Run registers that read the node once per range (in this order):
-// evm: DepositEventHandler, RetryV1EventHandler; substrate: RetryEventHandler, FungibleTransferEventHandler; btc: deposits
+// evm: DepositEventHandler, KeygenEventHandler, FrostKeygenEventHandler, RefreshEventHandler, RetryV1EventHandler;
+// substrate: RetryEventHandler, FungibleTransferEventHandler; btc: deposits
 func realStackSize(kind string) int {
-	if kind == "btc" {
+	switch kind {
+	case "btc":
 		return 1
+	case "evm":
+		return 5
 	}
 	return 2
 }
@@ -561,8 +567,15 @@ func (e *scanEnv) build() scanListener {
 			return btcListener.NewBtcListener(btcScanConn{e}, []btcListener.EventHandler{h}, cfg, e)
 		case "evm":
 			el := evmEvents.NewListener(realEvmNode{e}) // the real events.Listener between the handlers and the node
+			// the handlers in the order app.Run registers them; the TSS handlers get no coordinator/host: they only come
+			// into play when an event is found, and the fake chain holds none
+			noKey := keyshare.NewECDSAKeyshareStore(filepath.Join(os.TempDir(), "verif-no-such-keyshare"))
+			noFrost := keyshare.NewFrostKeyshareStore(filepath.Join(os.TempDir(), "verif-no-such-frost-keyshare"))
 			hs := []evmListener.EventHandler{
 				evmHandlers.NewDepositEventHandler(el, nil, common.Address{}, scanDomain, ch),
+				evmHandlers.NewKeygenEventHandler(zerolog.Context{}, el, nil, nil, nil, noKey, common.Address{}, 1),
+				evmHandlers.NewFrostKeygenEventHandler(zerolog.Context{}, el, nil, nil, nil, noFrost, common.Address{}, 1),
+				evmHandlers.NewRefreshEventHandler(zerolog.Context{}, nil, nil, el, nil, nil, nil, nil, noKey, noFrost, common.Address{}),
 				evmHandlers.NewRetryV1EventHandler(zerolog.Context{}, el, nil, noPropStore{}, common.Address{}, scanDomain, e.confBig(), ch),
 			}
 			return evmListener.NewEVMListener(evmScanClient{e}, hs[:e.nh], e, noMetrics{}, scanDomain, 0, e.confBig(), big.NewInt(e.k))
